@@ -472,13 +472,17 @@ def run(ctx):
               "client_stats is interpreted differently: file %s, env %s" % (f1, e1))
 
     def decoders(fn, ev, what):
+        # the loader itself and the closures written inside it (`from_env(NAME, |s| HEX.decode(s))`)
         out = set()
-        for bb, t in fn.calls():
-            p = strip_generics(t["fn"].get("path", ""))
-            if what == "seed" and p.endswith("Encoding::decode"):
-                out.add(fmt(ev.call_args(bb)[0]))
-            if what == "kms" and callee_name(p) == "parse":
-                out.add(str([s for s in t["fn"].get("substs", []) if "Kms" in s]))
+        for f2 in [fn] + [g for g in P.fns.values() if g.path.startswith(fn.path + "::{closure")]:
+            e2 = ev if f2 is fn else W.ev(f2.path)
+            for bb, t in f2.calls():
+                p = strip_generics(t["fn"].get("path", ""))
+                if what == "seed" and p.endswith("Encoding::decode"):
+                    out.add(fmt(e2.call_args(bb)[0]))
+                if what == "kms" and callee_name(p) in ("parse", "from_str"):
+                    ks = [s for s in t["fn"].get("substs", []) if "Kms" in s] or ([t["fn"].get("self_ty")] if "Kms" in str(t["fn"].get("self_ty")) else [])
+                    out.add(str(ks))
         return out
     ctx.check("sibling-semantics", "seed-encoding", decoders(fnew, fev, "seed") == decoders(enew, eev, "seed") and decoders(fnew, fev, "seed"), "both loaders decode the seed with the same encoding",
               "seed decoding differs: %s vs %s" % (decoders(fnew, fev, "seed"), decoders(enew, eev, "seed")))
